@@ -264,9 +264,13 @@ func fmtRun(res shot.Result) string {
 		strings.Contains(res.Class, "gun_warm_up_failed") {
 		return "INCONCLUSIVE machine too busy (ports / warm-up): " + res.Class
 	}
+	timeoutSeen := ""
 	for _, s := range res.Samples {
 		if s.Net == 98 || s.Net == 99 {
 			return "INCONCLUSIVE local ports exhausted (errno " + strconv.Itoa(s.Net) + ")"
+		}
+		if s.Net == 110 {
+			timeoutSeen = " TIMEOUT-SEEN"
 		}
 	}
 	for _, s := range res.Samples {
@@ -285,7 +289,7 @@ func fmtRun(res shot.Result) string {
 	for _, k := range keys {
 		parts = append(parts, fmt.Sprintf("%s*%d", k, cnt[k]))
 	}
-	return fmt.Sprintf("res=%s n=%d s=%s", res.Class, len(res.Samples), strings.Join(parts, ","))
+	return fmt.Sprintf("res=%s n=%d s=%s", res.Class, len(res.Samples), strings.Join(parts, ",")) + timeoutSeen
 }
 
 // gunOpts renders the optional gun settings an input line can switch on:
@@ -328,6 +332,12 @@ const slowRun = 8 * time.Second
 func runRun(m map[string]string) string {
 	t0 := time.Now()
 	obs := runRun1(m)
+	// a timeout (errno 110) where nothing was scripted to be silent: the loaded machine did not get to accept / answer
+	// within the dial or header timeout
+	if !strings.Contains(m["reqs"]+m["steps"], "acthang") && strings.Contains(obs, "TIMEOUT-SEEN") {
+		return "INCONCLUSIVE machine too busy: a connection timed out although the target was not scripted to be silent"
+	}
+	obs = strings.TrimSuffix(obs, " TIMEOUT-SEEN")
 	if d := time.Since(t0); d > slowRun && !strings.HasPrefix(obs, "res=hang") && !strings.HasPrefix(obs, "res=panic") {
 		return fmt.Sprintf("INCONCLUSIVE machine too busy: the run took %d s", int(d.Seconds()))
 	}
@@ -449,6 +459,12 @@ func runRun1(m map[string]string) string {
 			default:
 				c.Metadata, _ = grpcKindMeta(f[1], f[2])
 			}
+			if strings.HasSuffix(f[3], "U") && i > 0 && f[1] != "badpayload" {
+				// the payload uses a field of the PREVIOUS call's response message (absent when that call failed or
+				// answered with a foreign message)
+				c.Payload = fmt.Sprintf(`{"name": "v{{.request.c%d.postprocessor.hello}}"}`, i-1)
+			}
+			f[3] = strings.TrimSuffix(strings.TrimSuffix(f[3], "U"), "+")
 			if strings.HasPrefix(f[3], "as") {
 				g := strings.SplitN(f[3][2:], ":", 2)
 				pp := fmt.Sprintf("postprocessor \"assert/response\" {\n    status_code = %s\n", g[0])
@@ -597,7 +613,16 @@ func randScript(r *rand.Rand) string {
 		st := safeStatus[r.Intn(len(safeStatus))]
 		s := fmt.Sprintf("s%d.b%s", st, bodyClasses[r.Intn(len(bodyClasses))])
 		if r.Intn(2) == 0 {
-			s += ".hX-Val~" + hx(randASCII(r, r.Intn(12)))
+			if r.Intn(5) == 0 {
+				// bytes outside ASCII (no control characters: they would change the framing of the head)
+				b := make([]byte, 1+r.Intn(8))
+				for i := range b {
+					b[i] = byte(0x80 + r.Intn(0x80))
+				}
+				s += ".hX-Val~" + hex.EncodeToString(b)
+			} else {
+				s += ".hX-Val~" + hx(randASCII(r, r.Intn(12)))
+			}
 		}
 		if r.Intn(3) == 0 {
 			s += ".hX-Short~" + hx(randASCII(r, r.Intn(3)))
@@ -780,7 +805,7 @@ func gen(r *rand.Rand, tier string) []string {
 		out = append(out, fmt.Sprintf("k=jsonpath path=%s body=%s", []string{"result", "item0", "missing", "ab", "items"}[r.Intn(5)], randBody()))
 	}
 	// 5. engine runs: plain http guns x behaviours x gun settings
-	for i := 0; i < mul(80, 6000); i++ {
+	for i := 0; i < mul(150, 6000); i++ {
 		gun := []string{"http", "connect"}[r.Intn(2)]
 		opts, cc := randOpts(r, false)
 		var reqs []string
@@ -821,8 +846,8 @@ func gen(r *rand.Rand, tier string) []string {
 	out = append(out, "k=run gun=http2 tgt=dead inst=1 m=2 reqs=s200:f")
 	out = append(out, "k=run gun=http2 tgt=live inst=2 m=2 reqs=s200:f,s500.bjson:f")
 	// 6. engine runs: http scenarios x postprocessors x behaviours x gun settings
-	for i := 0; i < mul(300, 24000); i++ {
-		k := 1 + r.Intn(3)
+	for i := 0; i < mul(600, 24000); i++ {
+		k := 1 + r.Intn(mul(3, 6))
 		opts, cc := randOpts(r, true)
 		var steps []string
 		for j := 0; j < k; j++ {
@@ -831,7 +856,7 @@ func gen(r *rand.Rand, tier string) []string {
 				s = randRedirect(r)
 			}
 			var pps []string
-			for q := r.Intn(3); q > 0; q-- {
+			for q := r.Intn(mul(3, 6)); q > 0; q-- {
 				pps = append(pps, randPP(r))
 			}
 			if r.Intn(25) == 0 {
@@ -949,6 +974,13 @@ func gen(r *rand.Rand, tier string) []string {
 				pp = fmt.Sprintf("as%d", []int{200, 404, 500}[r.Intn(3)])
 			case 1:
 				pp = fmt.Sprintf("as%d:%s", []int{200, 0}[r.Intn(2)], hx([]string{"Hello", "zzz"}[r.Intn(2)]))
+			}
+			if j > 0 && r.Intn(3) == 0 {
+				if pp == "-" {
+					pp = "U"
+				} else {
+					pp += "+U"
+				}
 			}
 			calls = append(calls, fmt.Sprintf("tg%d,%s,%s,%s", j, kc[0], kc[1], pp))
 		}
